@@ -53,6 +53,52 @@ func genGRPC(t *rapid.T) GRPCCase {
 	return c
 }
 
+// grpcAmmo writes the ammo of n List calls (the i-th carries metadata x-entry: i and tag t<i>) for the grpc gun
+// (grpc/json) or the grpc/scenario gun (one scenario per call so that a failing call does not hide the following ones)
+// and returns the ammo section and the gun type.
+func grpcAmmo(n int, scenario, assert bool) (ammo map[string]any, gunType string, cleanup func()) {
+	if !scenario {
+		var sb strings.Builder
+		for i := 0; i < n; i++ {
+			b, _ := json.Marshal(map[string]any{"tag": fmt.Sprintf("t%d", i), "call": "target.TargetService.List",
+				"metadata": map[string]string{"x-entry": strconv.Itoa(i)}, "payload": map[string]any{"token": "x", "user_id": 1}})
+			sb.Write(b)
+			sb.WriteString("\n")
+		}
+		name := pand.WriteFile("c19g", ".json", []byte(sb.String()))
+		return map[string]any{"type": "grpc/json", "file": name, "passes": 1}, "grpc", func() { pand.Remove(name) }
+	}
+	var sb strings.Builder
+	sb.WriteString("calls:\n")
+	for i := 0; i < n; i++ {
+		fmt.Fprintf(&sb, "  - name: c%d\n    tag: t%d\n    call: target.TargetService.List\n    metadata:\n      x-entry: \"%d\"\n    payload: '{\"token\": \"x\", \"user_id\": 1}'\n", i, i, i)
+		if assert {
+			sb.WriteString("    postprocessors:\n      - type: assert/response\n        payload:\n          - result\n        status_code: 200\n")
+		}
+	}
+	sb.WriteString("scenarios:\n")
+	for i := 0; i < n; i++ {
+		fmt.Fprintf(&sb, "  - name: sc%d\n    weight: 1\n    min_waiting_time: 0\n    requests:\n      - c%d\n", i, i)
+	}
+	name := pand.WriteFile("c19g", ".yaml", []byte(sb.String()))
+	return map[string]any{"type": "grpc/scenario", "file": name, "limit": n}, "grpc/scenario", func() { pand.Remove(name) }
+}
+
+// grpcSample finds the sample of call i among the phout lines.
+func grpcSample(lines []line, scenario bool, i int) *line {
+	want := fmt.Sprintf("t%d", i)
+	if scenario {
+		want = fmt.Sprintf("sc%d.t%d", i, i)
+	}
+	var l *line
+	for k := range lines {
+		if lines[k].tag == want || strings.HasPrefix(lines[k].tag, want+"|") {
+			l = &lines[k]
+		}
+	}
+	return l
+}
+
 func checkGRPC(c GRPCCase, o *vf.Obs) error {
 	tg, mu := target.SharedGRPC()
 	mu.Lock()
@@ -83,40 +129,10 @@ func checkGRPC(c GRPCCase, o *vf.Obs) error {
 	})
 	out := pand.TempName("c19g", ".phout")
 	defer pand.Remove(out)
-	var ammo map[string]any
-	gun := map[string]any{"target": tg.Addr(), "timeout": "400ms"}
 	n := len(c.Behs)
-	if !c.Scenario {
-		var sb strings.Builder
-		for i := range c.Behs {
-			b, _ := json.Marshal(map[string]any{"tag": fmt.Sprintf("t%d", i), "call": "target.TargetService.List",
-				"metadata": map[string]string{"x-entry": strconv.Itoa(i)}, "payload": map[string]any{"token": "x", "user_id": 1}})
-			sb.Write(b)
-			sb.WriteString("\n")
-		}
-		name := pand.WriteFile("c19g", ".json", []byte(sb.String()))
-		defer pand.Remove(name)
-		ammo = map[string]any{"type": "grpc/json", "file": name, "passes": 1}
-		gun["type"] = "grpc"
-	} else {
-		var sb strings.Builder
-		sb.WriteString("calls:\n")
-		for i := range c.Behs {
-			fmt.Fprintf(&sb, "  - name: c%d\n    tag: t%d\n    call: target.TargetService.List\n    metadata:\n      x-entry: \"%d\"\n    payload: '{\"token\": \"x\", \"user_id\": 1}'\n", i, i, i)
-			if c.Assert {
-				sb.WriteString("    postprocessors:\n      - type: assert/response\n        payload:\n          - result\n        status_code: 200\n")
-			}
-		}
-		sb.WriteString("scenarios:\n")
-		// one scenario per call so that a failing call does not hide the following ones
-		for i := range c.Behs {
-			fmt.Fprintf(&sb, "  - name: sc%d\n    weight: 1\n    min_waiting_time: 0\n    requests:\n      - c%d\n", i, i)
-		}
-		name := pand.WriteFile("c19g", ".yaml", []byte(sb.String()))
-		defer pand.Remove(name)
-		ammo = map[string]any{"type": "grpc/scenario", "file": name, "limit": n}
-		gun["type"] = "grpc/scenario"
-	}
+	ammo, gunType, cleanup := grpcAmmo(n, c.Scenario, c.Assert)
+	defer cleanup()
+	gun := map[string]any{"type": gunType, "target": tg.Addr(), "timeout": "400ms"}
 	pool := map[string]any{
 		"id": "p", "gun": gun, "ammo": ammo,
 		"result":  map[string]any{"type": "phout", "destination": out},
@@ -135,18 +151,9 @@ func checkGRPC(c GRPCCase, o *vf.Obs) error {
 	}
 	mis, goodAfter := 0, false
 	for i, b := range c.Behs {
-		want := fmt.Sprintf("t%d", i)
-		if c.Scenario {
-			want = fmt.Sprintf("sc%d.t%d", i, i)
-		}
-		var l *line
-		for k := range lines {
-			if lines[k].tag == want || strings.HasPrefix(lines[k].tag, want+"|") {
-				l = &lines[k]
-			}
-		}
+		l := grpcSample(lines, c.Scenario, i)
 		if l == nil {
-			return fmt.Errorf("no sample tagged %q\n%s", want, data)
+			return fmt.Errorf("no sample for call %d (tag t%d)\n%s", i, i, data)
 		}
 		if b.Kind == "ok" {
 			if l.proto != 200 {
